@@ -17,6 +17,13 @@ CHECKS = {
  "C11": ("model_checking", "TLC checks FormInsensitive (state-level equality of <x/> vs <x></x>, Text vs CDATA) in every reading state; the harness applies every listed rewrite to the TLC-enumerated histories on the real code and requires byte-identical rendering under both presets and sort orders.", "TLA+ spec + TLC, metamorphic rewrites of TLC-enumerated histories on the real code", "§5 C11"),
  "C15": ("model_checking", "Necessity.tla transcribes merge_necessity; TLC checks the three C15 predicates on every pair of duplicate-free tagged lists within the bound (exhaustive), every enumerated pair is replayed through the real function, and seeded random pairs beyond the bound are validated against the specification by MergeTrace.", "TLA+ spec + TLC exhaustive enumeration, spec->impl replay, impl->spec trace validation", "§5 C15"),
 }
+CHECKS.update({
+ "C04": ("model_checking", "Render.tla / Strings.tla / Chars.tla transcribe the renderer, identifier map and convert_string; trees are enumerated by TLC as public-operation sequences over adversarial name pools; the as-coded model is judged at design level and every tree is built through the real API, rendered, parsed by a strict template parser and judged by RenderProps!C04Tags in RenderTrace (which also reports any deviation from the model). Known defects of the pinned renderer are listed in known_findings.json.", "TLA+ renderer spec + TLC tree enumeration, spec->impl replay, RenderTrace judging of real output", "§5 C04"),
+ "C05": ("model_checking", "TLC checks Deterministic (no choice left once the event is fixed) on the histories of the names/children instances; every history is parsed and rendered repeatedly on the real code in one thread, several threads and fresh processes; all outputs must be byte-identical.", "TLA+ spec + TLC (input generation, determinism invariant), repetition oracle on the real code", "§5 C05"),
+ "C10": ("model_checking", "Each TLC-enumerated / random tree is rendered by the real code under both presets, both sort orders and random derive/prefix/text-identifier strings; RenderTrace judges derive lines, rename rules, bindings and that equal sort options give equal skeletons (RenderProps!OptionTags, ReflectTags, Skeleton).", "TLA+ renderer spec + TLC, RenderTrace judging across option tuples", "§5 C10"),
+ "C14": ("model_checking", "Trees in which one name recurs under different parents / depths / itself are enumerated by TLC; RenderProps!NameTags judges every real struct name (own PascalCase name, ancestor qualification only, unqualified when unique, first struct = root) and the as-coded model at design level.", "TLA+ renderer spec + TLC, RenderTrace judging", "§5 C14"),
+ "C16": ("model_checking", "ElementApi.tla: every sequence of public operations within the bound is a behaviour; TLC checks Unique and EffectOK after every operation; each sequence is executed on a real Element and ApiTrace accepts a step only if names stay unique and the operation had exactly the demanded effect; final trees are rendered and judged by RenderTrace; random sequences up to 60 operations beyond the bound.", "TLA+ API state machine + TLC, spec->impl replay, ApiTrace / RenderTrace validation", "§5 C16"),
+})
 NOTES = {"C15": "Trusted: TLC, the harness instantiation merge_necessity::<i64>; exhaustive only up to alphabet/length bound (quick 3/3, thorough 4/4), sampled beyond."}
 
 def main():
